@@ -88,7 +88,11 @@ impl<'a> Cursor<'a> {
     pub(crate) fn peek_while(&mut self, condition: impl Fn(char) -> bool) -> (usize, usize) {
         let peeker = self.chars.clone();
         let start = self.pos();
-        let len = peeker.take_while(|c| condition(*c)).count();
+        // A byte length, like `take_while`, so that `slice(start, len)` stays on a char boundary.
+        let len = peeker
+            .take_while(|c| condition(*c))
+            .map(char::len_utf8)
+            .sum();
         (start, len)
     }
 
